@@ -233,6 +233,10 @@ def judge(chk, recs, pid, also=()):
                           {"ledger": rec["text"], "observed": rec["impl_line"].split(" result=")[-1], "model": rec["model_line"],
                            "failed_clauses": mine,
                            "rerun": "printf '%%s' \"$LEDGER\" > /tmp/x.ledger && /verif/work/target/debug/okane balance /tmp/x.ledger"})
+        elif rec["agree"] is False and rec["mismatches"]:
+            # the model/implementation disagreement on this input is a concrete violation of ANOTHER property
+            # (reported, with this input as replay, by that property's own check)
+            chk.count("disagreement explained by a violation of " + ",".join(sorted({m[0] for m in rec["mismatches"]})))
         elif rec["agree"] is False:
             chk.disagreements += 1
             chk.violation("model and implementation of report::process disagree; no clause of %s fails on this input" % pid,
